@@ -878,6 +878,34 @@ Proof.
     apply zmem_In. apply C. lia.
 Qed.
 
+(* the converses: what the executable clauses accept IS what the spec says (so a green monitor on an
+   implementation trace means the allocated line really was the least free one, the chosen service
+   really an idlest working one) *)
+Lemma least_free_b_sound l n : least_free_b l n = true -> least_free l n.
+Proof.
+  unfold least_free_b. rewrite !andb_true_iff. intros [[A B] C].
+  apply Z.leb_le in A. apply negb_true_iff in B. rewrite forallb_forall in C.
+  split; [exact A|]. split.
+  - intro I1. apply zmem_In in I1. rewrite I1 in B. discriminate.
+  - intros m Hm. apply zmem_In. apply C. apply in_map_iff. exists (Z.to_nat m).
+    split; [apply Z2Nat.id; lia|]. apply in_seq. lia.
+Qed.
+
+Lemma least_free_b_exact l n : least_free_b l n = true <-> least_free l n.
+Proof. split; [apply least_free_b_sound | apply least_free_b_complete]. Qed.
+
+Lemma idlest_b_sound s svc : idlest_b s svc = true -> idlest s svc.
+Proof.
+  unfold idlest_b. destruct (aget svc (services s)) as [t|] eqn:A; [|discriminate].
+  rewrite andb_true_iff. intros [W F]. rewrite forallb_forall in F.
+  exists t. split; [exact A|]. split; [exact W|].
+  intros svc' t' A' W'. specialize (F (svc', t') (aget_in _ _ _ A')). cbn [snd] in F.
+  rewrite W' in F. cbn [negb orb] in F. apply Z.leb_le. exact F.
+Qed.
+
+Lemma idlest_b_exact s svc : sorted (services s) -> (idlest_b s svc = true <-> idlest s svc).
+Proof. intro S. split; [apply idlest_b_sound | apply idlest_b_complete; exact S]. Qed.
+
 (* ================================================================== monitor_accepts_model
    Every implementation trace the model accepts ([agree_from]) passes the monitor.  So a monitor
    failure on an implementation trace is a behaviour the model excludes. *)
